@@ -111,4 +111,51 @@ example : invokeTrap 5 [] .err { st := {}, errTrap := some (.leaf 1 [1]), active
     = some ({ st := {}, errTrap := some (.leaf 1 [1]), active := [.err] }, false) := by
   simp [invokeTrap]
 
+/-! ### Subshells with their own EXIT trap -/
+
+/-- The property for a subshell that registers an EXIT trap, at full strength: what brush does equals
+the reference (handler runs once, last, sees the terminating status). -/
+def subshell_own_exit_trap_full : Prop :=
+  ∀ (fuel : Nat) (fs : List Cmd) (sup : Bool) (h : Option Cmd) (c : Cmd) (s : St),
+    subshellOwnTrap fuel fs sup h c s = subshellOwnTrapSpec fuel fs sup h c s
+
+/-- `( trap 'm9' EXIT; m1; exit 3 )`: brush never runs the handler (bash prints m1, m9). -/
+theorem subshell_own_exit_trap_full_cex : ¬ subshell_own_exit_trap_full := by
+  intro hfull
+  have := hfull 10 [] false (some (.leaf 9 [0]))
+    (.seq (.cons (.leaf 1 [0]) (.cons (.exit (some 3)) .nil))) {}
+  revert this
+  decide +kernel
+
+/-- … and it holds for every subshell that registers no EXIT trap of its own (whatever the parent's
+traps are: brush's clone carries them but nothing ever invokes them for the clone). -/
+theorem subshell_own_exit_trap_partial (fuel : Nat) (fs : List Cmd) (sup : Bool) (c : Cmd) (s : St) :
+    subshellOwnTrap fuel fs sup none c s = subshellOwnTrapSpec fuel fs sup none c s := by
+  cases fuel with
+  | zero => (simp only [subshellOwnTrap, subshellOwnTrapSpec]; rw [exec.eq_def])
+  | succ n =>
+    simp only [subshellOwnTrap, subshellOwnTrapSpec]
+    rw [exec.eq_def]; simp only
+    cases exec n fs sup c s with
+    | none => rfl
+    | some sr => rfl
+
+/-- What brush loses is exactly the handler's run: up to the handler, its output is the reference's
+(the reference's trace extends brush's), whenever both terminate. -/
+theorem subshell_own_trap_only_handler_missing (fuel : Nat) (fs : List Cmd) (sup : Bool) (h c : Cmd) (s : St)
+    (s1 : St) (r1 : Res) (hc : exec fuel fs sup c s = some (s1, r1))
+    (s2 : St) (rh : Res) (hh : exec fuel fs false h { s1 with last := r1.code } = some (s2, rh)) :
+    subshellOwnTrap (fuel + 1) fs sup (some h) c s
+        = some (post sup { s with trace := s1.trace } { code := r1.code, flow := .normal }) ∧
+    subshellOwnTrapSpec (fuel + 1) fs sup (some h) c s
+        = some (post sup { s with trace := s2.trace }
+            { code := if rh.flow = .exit then rh.code else r1.code, flow := .normal }) := by
+  constructor
+  · simp only [subshellOwnTrap]; rw [exec.eq_def]; simp only [hc]
+  · simp [subshellOwnTrapSpec, hc, hh]
+
+example : subshellOwnTrapSpec 10 [] false (some (.seq (.cons .probe (.cons (.leaf 9 [0]) .nil))))
+      (.seq (.cons (.leaf 1 [0]) (.cons (.exit (some 3)) .nil))) {}
+    = some ({ trace := [.m 1, .q 3, .m 9], last := 3 }, { code := 3, flow := .normal }) := by decide +kernel
+
 end BrushVerif.C16
